@@ -17,7 +17,7 @@ def compare_fst(p1, p2):
         for i in range(len(p1[0])):
             if p1[0][i] != p2[0][i]:
                 return compare_fst(p1[0][i], p2[0][i])
-            return 0
+        return 0
 
 def collect_pairs(ps):
     """Reduce a list of pairs by collecting into groups according to
